@@ -323,6 +323,20 @@ def replay_state(state):
             obs["sub_calls"] = [_obs_call(child, v, skip=drive.default_ids(child)) for v in pyvals]
         except Exception as exc:  # noqa
             obs["sub_err"] = type(exc).__name__ + ": " + str(exc)[:120]
+    # the same declarations entered through properties.update(...) (the mapping is filled
+    # without __setitem__; binding happens when the element is next used): same document
+    if state.get("dobs"):
+        try:
+            from statham.schema.property import Property
+            k4, el2 = drive.parse_labelled(sj)
+            items = list(el2.properties.items())
+            for attr, _p in items:
+                del el2.properties[attr]
+            el2.properties.update({attr: Property(p_.element, required=p_.required, source=p_.source)
+                                   for attr, p_ in items})
+            obs["upd_calls"] = [_obs_call(el2, v, skip=drive.default_ids(el2)) for v in pyvals]
+        except Exception as exc:  # noqa
+            obs["upd_err"] = type(exc).__name__ + ": " + str(exc)[:120]
     edef = getattr(el, "default", NotPassed())
     if isinstance(edef, NotPassed):
         obs["edef"] = codec.NotPassedMarker()
